@@ -59,6 +59,31 @@ def check(ctx):
                 sig = "data-race " + " <-> ".join(sorted(set(pair)) or ["?"])
                 sigs[sig] = sigs.get(sig, 0) + 1
                 ctx.violation(sig, "scenario %s%s: %s" % (sc[0], " (no hooks)" if quiet else "", text[:1500]), {"kind": sc[0], "quiet": quiet, "report": text[:3000]})
+    # the attachment server with its default file handler under the detector: overlapping sessions, sessions ending at the same
+    # instant, pieces re-sent after the completion report, hostile lifecycles
+    import tempfile, shutil
+    for cmd in ("live-attach-overlap", "live-attach"):
+        work = tempfile.mkdtemp(prefix="verif_c18_attach_")
+        os.makedirs(os.path.join(work, "up1", "up2", "cwd"))
+        outf = os.path.join(ctx.scratch, "c18_%s.ndjson" % cmd)
+        r = ctx.vh([cmd, os.path.join(work, "up1", "up2", "cwd"), outf], timeout=900, race=True, cwd=work,
+                   env={"GORACE": "halt_on_error=0 exitcode=0 history_size=5", "VERIF_SEED": str(ctx.seed)})
+        shutil.rmtree(work, ignore_errors=True)
+        nruns += 1
+        if r.returncode != 0 and "DATA RACE" not in r.stderr:
+            if "panic:" in r.stderr or "fatal error:" in r.stderr:
+                ctx.violation(lc.panic_signature(r.stderr), "%s under the race detector: %s" % (cmd, r.stderr[-1200:]), {"kind": cmd})
+                continue
+            raise vlib.ToolFailure("%s (race build) failed rc=%d:\n%s" % (cmd, r.returncode, r.stderr[-2000:]))
+        for frames, inrepo, text in reports(r.stderr):
+            if not inrepo:
+                raise vlib.ToolFailure("race report without a repository frame (harness race?):\n%s" % text[:1500])
+            nraces += 1
+            fs = [f.replace("github.com/cuteLittleDevil/go-jt808/", "") for f in re.findall(r"^  (\S+)\(\)", text, re.M)]
+            pair = sorted(set(re.sub(r"(\.func\d+)+(\.\d+)?$|\.gowrap\d+$", "", f) for f in fs if f.startswith(("service.", "attachment.", "protocol/"))))[:2]
+            sig = "data-race " + " <-> ".join(pair or ["?"])
+            sigs[sig] = sigs.get(sig, 0) + 1
+            ctx.violation(sig, "scenario %s: %s" % (cmd, text[:1500]), {"kind": cmd, "report": text[:3000]})
     ctx.cov["evaluations"] = nruns
     ctx.cov["distinct_nontrivial"] = max(2, nruns)
     ctx.cov["race_reports"] = nraces
